@@ -9,7 +9,7 @@
    plus sleep), stereotype, stage count and budget, and any list of injected messages; all
    statements hold for every script. *)
 From Coq Require Import List NArith Bool.
-From DesVerif Require Import Life.Model Life.Base Life.Step Life.Trace Life.Frame Life.Inert Life.Inv Life.Events Life.Restart Life.Term.
+From DesVerif Require Import Life.Fresh Life.Model Life.Base Life.Step Life.Trace Life.Frame Life.Inert Life.Inv Life.Events Life.Restart Life.Term.
 Import ListNotations.
 Open Scope N_scope.
 
@@ -86,20 +86,61 @@ Theorem C09_old_incarnation_silent : forall sc pre e post m c t a,
 Proof. exact old_incarnation_silent. Qed.
 Print Assumptions C09_old_incarnation_silent.
 
-(* fresh_after_restart (partial): when a restart event of m is dispatched, the world it is dispatched
-   in is a generated one in which m is down: inactive, no task, no pending timer, no pending
-   request -- the replayed start-up stages build the new incarnation from the same task / timer
-   state as the very first start.  (With old_incarnation_silent: every task step afterwards belongs
-   to the new incarnation.)
-   Full statement, not proved: the records of m after the restart equal those of a module started
-   for the first time at that instant with the same later inputs.  As stated it is false by design:
-   the user struct survives ("custom state will be kept": here budget and incarnation counter), and
-   so do the time driver's next_wakeup and the try_join handles. *)
+(* fresh_after_restart (partial).  What a module keeps across shutdown / restart is made explicit -- [kept]: the user
+   struct (here: incarnation counter and budget; "custom state will be kept"), the time driver's next_wakeup, the
+   JoinHandles given to join / try_join, the stereotype -- and everything else is that of a newly created module:
+   [fresh v a] is the state of a module created around the kept pieces v with active flag a; the very first state of a
+   module is [fresh (kept0 c) true] (C09_first_state_is_fresh).
+   (a) consuming a shutdown request leaves exactly [fresh v false], v = the kept pieces with the incarnation counter
+       bumped and a due next_wakeup dropped: no task, no timer, no request (C09_shutdown_leaves_fresh);
+   (b) when a restart event of m is dispatched, the world is a generated one in which m's state is [fresh v false] for
+       some v, and the records of the event are those of activate / module_restart / deactivate / buf_process on it
+       (this theorem; with old_incarnation_silent: every task step afterwards belongs to the new incarnation);
+   (c) module_restart is: set the active flag, then the callback the first start runs for each stage --
+       at_sim_start(stage), with the time of the restart in place of 0 -- in order, until one returns an error or
+       leaves the module inactive; for a single-stage module that is literally the first start's callback applied to
+       [fresh v true] (C09_restart_runs_first_start_callback).
+   Differences to a first start that remain, by design of the code: the kept pieces; and for a module with several
+   stages the restart runs all stages inside one event (one buf_process at the end), whereas the start-up sweep handles
+   the buffered events after every stage -- a shutdown requested in stage 0 stops the later stages of a first start but
+   not those of a restart.
+   Full statement, not proved: the records of m from the restart on equal those of a module created fresh around the
+   kept pieces at that instant and given the same later inputs (a whole-trace comparison between two runs). *)
 Theorem C09_fresh_after_restart_partial : forall sc pre e post m,
   trace sc = pre ++ e :: post -> e_kind e = KLoop (EvRestart m) ->
-  exists w1 f1, Gen sc w1 pre /\ Down m w1 /\ fes_fetch (w_fes w1) = Some (e_time e, EvRestart m, f1).
-Proof. exact fresh_after_restart. Qed.
+  exists w1 f1 v, Gen sc w1 pre /\ fes_fetch (w_fes w1) = Some (e_time e, EvRestart m, f1) /\
+    w_mod w1 m = fresh v false /\
+    let r := around sc (e_time e) m (module_restart (nmods sc) (cfg sc m) (e_time e) m) (set_fes w1 f1) in
+    e_items e = snd r ++ [ISample (e_time e) (mask sc (fst r))].
+Proof. exact fresh_after_restart_full. Qed.
 Print Assumptions C09_fresh_after_restart_partial.
+
+Theorem C09_first_state_is_fresh : forall sc m, w_mod (init_world sc) m = fresh (kept0 (cfg sc m)) true.
+Proof. intros sc m. reflexivity. Qed.
+Print Assumptions C09_first_state_is_fresh.
+
+Theorem C09_shutdown_leaves_fresh : forall c now m w r, shut (w_mod w m) = Some r ->
+  w_mod (fst (shutdown_part c now m w)) m =
+  fresh {| k_inc := inc (w_mod w m) + 1; k_bud := bud (w_mod w m); k_nw := nw_bump now (nw (w_mod w m));
+           k_hnd := hnd (w_mod w m); k_catch := catchf (w_mod w m) |} false.
+Proof. exact shutdown_leaves_fresh. Qed.
+Print Assumptions C09_shutdown_leaves_fresh.
+
+Theorem C09_restart_runs_first_start_callback :
+  (forall k c now m s, c_stages c = 1 ->
+     module_restart k c now m s = fst (at_sim_start k c now m 0 (on_w (fun w => set_mod w m (set_active (w_mod w m) true)) s))) /\
+  (forall sc stage m s, start_cb sc stage m s = fst (at_sim_start (nmods sc) (cfg sc m) 0 m stage s)) /\
+  (forall k c now m s,
+     module_restart k c now m s =
+     fst (fold_left (fun (acc : xs * bool) stage =>
+                       if snd acc then acc
+                       else (fst (at_sim_start k c now m stage (fst acc)),
+                             snd (at_sim_start k c now m stage (fst acc)) ||
+                             negb (active (w_mod (x_w (fst (at_sim_start k c now m stage (fst acc)))) m))))
+                    (stage_list (c_stages c))
+                    (on_w (fun w => set_mod w m (set_active (w_mod w m) true)) s, false))).
+Proof. split; [exact module_restart_single|split; [reflexivity|exact module_restart_stages]]. Qed.
+Print Assumptions C09_restart_runs_first_start_callback.
 
 (* shutdown_frame: consuming m's shutdown request (second half of buf_process) changes no other
    module's state -- tasks and timers included --, leaves the global slots and the error list
